@@ -1157,4 +1157,30 @@ _streams_without_nushell_model = streams
 
 def streams(tier, rng):
     return _streams_without_nushell_model(tier, rng) + _nushell_model_streams(tier, rng)
+# what MANIFEST.json says about C16 after the nushell model (the strings above describe the state before it)
+RULE = RULE + ("  Streams nushell-model / nushell-model-names: the same trees (+ aliases without primary, bin names with a space "
+               "/ non-ASCII) and small trees with adversarial names (quotes, brackets, every kind of Unicode white space in "
+               "possible values, LF / CR / CR LF inside and at the end of ids and longs, names longer than the 30-column "
+               "indent) and help / about texts, on which the module of the extracted nushell generator model must equal the "
+               "real module byte for byte.")
+TECHNIQUE = TECHNIQUE.replace("PowerShell/elvish: the script byte for byte)", "fish/PowerShell/elvish/nushell: the script byte for byte)") \
+    .replace("byte-exact models of the PowerShell and elvish generators with coverage and lookup theorems",
+             "byte-exact models of the fish, PowerShell, elvish and nushell generators with coverage theorems")
+LEVEL_TEXT = (LEVEL_TEXT +
+              "  nushell: an executable Gallina TRANSCRIPTION of clap_complete_nushell/src/lib.rs (all of it; the string written "
+              "so far is threaded through every function as in the Rust code, because the padding of a help comment is "
+              "computed from s.lines().last(); every expect / unreachable! visible) is proved to compute a specification in "
+              "pieces whenever every node has a bin name, so no panic site is reachable after build; generate() writes a module "
+              "for EVERY command tree, deterministically; for EVERY path of names or visible aliases, at every depth, the module "
+              "contains the block of the addressed command -- one export extern per subcommand path, declared under the bin path "
+              "of the NAMES -- with a line for every short and long spelling the accessors return (class aliases_have_primary: "
+              "every short, long and visible alias), a line for every positional, and the nu-complete definition with every "
+              "possible value (hidden ones included) referenced from the argument's lines.  The two recorded findings "
+              "(option aliases without primary, subcommand aliases) are proved class boundaries with replayed witnesses.  The "
+              "model's module is compared byte for byte with the real generator's on every generated tree on every run.")
+LEVEL_NOTE = LEVEL_NOTE.replace("Partial: zsh/fish/nushell have no generator model (token oracle only)",
+                                "Partial: zsh has no generator model (token oracle only); fish, PowerShell, elvish and nushell have "
+                                "byte-exact generator models with theorems but are not installed (what the shell does with the script "
+                                "is not modelled); for nushell `build => linked` is a hypothesis of the theorem that names the declared "
+                                "path, and uniqueness of a block's name is not stated")
 # ---- end nushell generator model ----
